@@ -8,7 +8,10 @@
      * the backing operations are those of the uncached store: at most one per call, of the
        call's kind and key, reads see the ground truth, and an answer that was fetched from the
        backing store is returned unchanged;
-     * at quiescence the linearized map equals the backing store (Quiet events).
+     * at quiescence the linearized map equals the backing store (Quiet events);
+     * when a Put / PutMany returns, every block of the call that no Delete overlapped IS in the
+       backing store (a PutMany batch is a sequence: `ks` may repeat a key and is in the caller's
+       order; the map model only looks at the set of keys that occur).
 
    A return that NO linearization explains is accepted only as a named, open deviation and only
    in the situation that deviation describes (CONSTANT Devs, filled by the runner):
@@ -147,6 +150,7 @@ TRet ==
           [] IsPut(c.kind) \/ c.kind = "Del" ->
                /\ Ev.r = "ok"
                /\ nb[p] = 1 => lastb[p] = "ok"
+               /\ IsPut(c.kind) => \A j \in clean[p] : j \in store      \* put returned => stored (ground truth)
                /\ mon' = [j \in Keys |-> IF j \in c.ks THEN MonReturn(mon[j], p, "w") ELSE mon[j]]
                /\ \A j \in c.ks : mon'[j] # {}
                /\ settled' = [j \in Keys |-> IF j \in clean[p] THEN TRUE ELSE settled[j]]
